@@ -207,6 +207,7 @@ def run_campaign(check, tier, seed, workers=None, n_cases=None, log=print):
     pending = list(range(len(chunks)))
     skip = set()
     crashes = []
+    unrepro = [0]
     stopped_early = False
     ctx = multiprocessing.get_context('fork')
     rounds = 0
@@ -250,25 +251,30 @@ def run_campaign(check, tier, seed, workers=None, n_cases=None, log=print):
                 stopped_early = any(True for _ in it) or stopped_early
         pending = [ci for ci in pending if ci not in set(done_now)]
         if broken:
-            # a worker died (segfault / sanitizer abort): attribute it to the case in its journal
+            # a worker died (segfault / sanitizer abort / kill). candidates: the case each worker had in flight;
+            # each candidate is re-run alone in a fresh process and only the ones that die again are reported.
             found = False
+            cands = []
             for jf in SCRATCH.glob('journal-*'):
                 try:
                     idx = int(jf.read_text().strip() or '-1')
                 except ValueError:
                     idx = -1
-                errtxt = ''
-                ef = SCRATCH / jf.name.replace('journal-', 'worker-').__add__('.err')
-                if ef.exists():
-                    errtxt = ef.read_text(errors='replace')[-4000:]
                 if idx >= 0 and idx not in skip:
-                    skip.add(idx)
-                    crashes.append({'index': idx, 'stderr_tail': errtxt})
-                    found = True
+                    cands.append(idx)
                 jf.unlink()
+            for idx in sorted(set(cands)):
+                died, tail = isolate_case(check, tier, seed, idx)
+                if died:
+                    skip.add(idx)
+                    crashes.append({'index': idx, 'stderr_tail': tail})
+                    found = True
             if not found:
-                agg['harness_errors'].append({'index': None, 'error': 'worker pool broke without a journalled case'})
-                break
+                agg['harness_errors'].append({'index': None, 'error': f'a worker died but none of the in-flight cases '
+                                              f'{sorted(set(cands))} dies when re-run alone'})
+                unrepro[0] += 1
+                if unrepro[0] > 2:
+                    break
         elif stopped_early or time.time() - t0 > budget:
             break
     for c in crashes:
@@ -285,6 +291,21 @@ def run_campaign(check, tier, seed, workers=None, n_cases=None, log=print):
     agg['planned'] = n
     agg['stopped_early'] = bool(pending)
     return agg
+
+
+def isolate_case(check, tier, seed, idx, timeout=180):
+    """re-run one case index alone in a fresh interpreter; (died?, stderr tail)"""
+    import subprocess
+    env = dict(os.environ, VERIF_SEED=str(seed))
+    try:
+        r = subprocess.run([sys.executable, str(VERIF / 'run_check.py'), check.ID, '--tier', tier, '--one', str(idx)],
+                           env=env, capture_output=True, text=True, timeout=timeout)
+    except subprocess.TimeoutExpired:
+        return False, 'isolation run timed out'
+    died = r.returncode < 0 or r.returncode >= 100 or 'AddressSanitizer' in r.stderr or 'runtime error:' in r.stderr \
+        or 'Fatal Python error' in r.stderr
+    tail = '\n'.join(ln for ln in r.stderr.splitlines() if not ln.startswith('flipjump: flat-storage'))[-3000:]
+    return died, f'rc={r.returncode}\n{tail}'
 
 
 # ------------------------------------------------------------------------------------ findings / replay
